@@ -927,6 +927,35 @@ def _reduce_all(kind, v):
     return Val([], [(D(1), nf.Net([(wid, ())]))])
 
 
+def j_allclose(I, args, kw):
+    """data-dependent predicates (allclose / array_equal / isclose().all() ...): an opaque 0-d boolean of the difference - using it in
+    python control flow is what the trace-safety rule reports"""
+    a, b = _arr(args[0]), _arr(args[1])
+    r = _reduce_all("AllClose", nf.add(a, b, -1))
+    r.kind = "bool"
+    return r
+
+
+def j_any(I, args, kw):
+    v = _arr(args[0])
+    if _axis(kw, args, 1) is not None:
+        raise Undecided("any over an axis")
+    r = _reduce_all("AnyTrue", v)
+    r.kind = "bool"
+    return r
+
+
+def j_norm(I, args, kw):
+    """vector 2-norm along an axis (ord=None): sqrt(sum x^2)"""
+    v = _arr(args[0])
+    if kw.get("ord") not in (None, 2) or len(args) > 1:
+        raise Undecided("norm with ord")
+    ax = kw.get("axis")
+    sq = nf.mul(v, v)
+    tot = nf.sum_axis(sq, None if ax is None else _int(ax), bool(kw.get("keepdims", False)))
+    return nf.elementwise("Sqrt", tot)
+
+
 def j_all(I, args, kw):
     v = _arr(args[0])
     ax = _axis(kw, args, 1)
@@ -1391,7 +1420,8 @@ EXT = {
     "jax.numpy.atleast_1d": j_atleast_1d, "jax.numpy.power": j_power, "jax.numpy.reciprocal": j_reciprocal, "jax.numpy.mean": j_mean,
     "jax.numpy.full": j_full, "jax.numpy.full_like": j_full_like, "jax.numpy.diag": j_diag, "functools.partial": f_partial, "jax.numpy.eye": j_eye, "jax.numpy.zeros": j_zeros, "jax.numpy.ones": j_ones,
     "jax.numpy.empty": j_empty, "jax.numpy.arange": j_arange, "jax.numpy.array": j_array,
-    "jax.numpy.where": j_where, "jax.numpy.maximum": j_maximum, "jax.numpy.clip": j_clip, "jax.numpy.argsort": j_argsort, "jax.numpy.pad": j_pad, "jax.numpy.sort": j_sort, "jax.numpy.max": j_max, "jax.numpy.all": j_all,
+    "jax.numpy.where": j_where, "jax.numpy.maximum": j_maximum, "jax.numpy.clip": j_clip, "jax.numpy.argsort": j_argsort, "jax.numpy.pad": j_pad, "jax.numpy.sort": j_sort, "jax.numpy.max": j_max, "jax.numpy.all": j_all, "jax.numpy.allclose": j_allclose, "jax.numpy.array_equal": j_allclose,
+    "jax.numpy.any": j_any, "jax.numpy.linalg.norm": j_norm,
     "jax.numpy.logical_and": j_logical_and, "jax.numpy.logical_or": j_logical_or, "jax.numpy.logical_not": j_logical_not, "jax.numpy.greater_equal": _cmp0("Ge"),
     "jax.numpy.less_equal": _cmp0("Le"), "jax.numpy.equal": _cmp0("Eq"), "jax.numpy.isfinite": j_isfinite,
     "jax.numpy.squeeze": j_squeeze, "jax.numpy.ix_": j_ix, "jax.numpy.setxor1d": j_setxor1d, "jax.numpy.setdiff1d": j_setdiff1d,
@@ -1551,6 +1581,14 @@ def array_binop(I, op, l, r):
     if isinstance(op, ast.Pow):
         if it.is_num(r) and D(r).is_const() and D(r).value().denominator == 1 and 0 <= D(r).value() <= 6:
             k = int(D(r).value())
+            if k >= 2 and k % 2 == 0 and isinstance(l, Val):
+                # sqrt(X) ** 2 = X also for a multi-term X (the in-network rule only handles single-term arguments)
+                ntl = nf.normalize(l)
+                if len(ntl) == 1 and ntl[0][0].is_one() and len(ntl[0][1].f) == 1 and nf.ST.head[ntl[0][1].f[0][0]].kind == "Sqrt" \
+                        and all(x in nf.allfree(l) for x in ntl[0][1].f[0][1]):
+                    inner = nf.head_arg_val(ntl[0][1].f[0][0], ntl[0][1].f[0][1], l.axes)
+                    l = Val(l.axes, inner.terms)
+                    k //= 2
             out = nf.const(1)
             for _ in range(k):
                 out = nf.mul(out, l)
